@@ -341,6 +341,38 @@ let run_norm (proto : string) (su : string) (toks : string list) : string =
      | None -> "ok TOOBIG"
      | Some d -> "ok " ^ string_of_bytes d)
 
+(* the round-trip theorem with maps / Dicts / structs (NormMaps.norm2): the predicted content is
+   materialised as a value over a fresh heap (ids only name the objects) and printed like a
+   decoded value *)
+let materialise (cvl : cv) : val0 * heap =
+  let heap = ref [] and next = ref 0 in
+  let rec go (x : cv) : val0 =
+    match x with
+    | CLeaf t -> unerase t
+    | CList l -> VList (n_of_int 0, List.map go l)
+    | CTuple l -> VTuple (List.map go l)
+    | CCall (m, n, l) -> VCall (m, n, List.map go l)
+    | CMap es ->
+      let id = n_of_int !next in incr next;
+      let es' = List.map (fun (k, v) -> (go k, go v)) es in
+      heap := heap_set !heap id (HMap es'); VMap id
+    | CDict es ->
+      let id = n_of_int !next in incr next;
+      let es' = List.map (fun (k, v) -> (go k, go v)) es in
+      heap := heap_set !heap id (HDict es'); VDict id in
+  let v = go cvl in (v, !heap)
+
+let run_norm2 (proto : string) (pd : string) (su : string) (hook : bool) (toks : string list) : string =
+  let (v, _) = parse_rval toks in
+  let cfg = { e_proto = z_of_dec proto; e_strict = (su = "1"); e_isprint = is_print_hi; e_fmtg = fmt_g } in
+  match norm2 cfg (pd = "1") (if hook then inv_g else (fun t -> TRef t)) v with
+  | None -> "NA"
+  | Some cvl ->
+    let (x, h) = materialise cvl in
+    (match dump_val_capped h x with
+     | None -> "ok TOOBIG"
+     | Some d -> "ok " ^ string_of_bytes d)
+
 (* C18's theorem: what Decode with the registry hook returns for Encode's output *)
 let run_normh (proto : string) (su : string) (toks : string list) : string =
   let (v, _) = parse_rval toks in
@@ -673,6 +705,8 @@ let handle (line : string) : string =
   | "enc" :: proto :: su :: failat :: rest -> run_enc proto su failat rest
   | "norm" :: proto :: su :: rest -> run_norm proto su rest
   | "normh" :: proto :: su :: rest -> run_normh proto su rest
+  | "norm2" :: proto :: pd :: su :: rest -> run_norm2 proto pd su false rest
+  | "norm2h" :: proto :: pd :: su :: rest -> run_norm2 proto pd su true rest
   | "qload" :: rest -> run_qload (match rest with [h] -> h | _ -> "")
   | "qloads" :: rest -> run_qloads rest
   | "memofree" :: pd :: su :: rest ->
